@@ -41,6 +41,10 @@ def write_lat(filename, frames, append=False):
             fh.write(f"{int(x)} {int(v)}\n")
 
 
+class LatticeScriptExhausted(RuntimeError):
+    pass
+
+
 class LatticeEngine(EngineBase):
     """Symmetric +-1 walk with a reflecting wall on the left."""
 
@@ -53,6 +57,7 @@ class LatticeEngine(EngineBase):
         self.left_wall = int(left_wall)
         self.sleep = float(sleep)
         self.script = None
+        self.script_calls = None   # list of step lists: one per propagate call (move-level replays)
         self.calls = []          # (what, detail) log used by the move-level harness
 
     # -- plug-in interface ------------------------------------------------
@@ -89,7 +94,7 @@ class LatticeEngine(EngineBase):
     def _draw(self):
         if self.script is not None:
             if not self.script:
-                raise RuntimeError("lattice script exhausted")
+                raise LatticeScriptExhausted("lattice script exhausted")
             return self.script.pop(0)
         return 1 if self.rgen.random() < 0.5 else -1
 
@@ -97,6 +102,8 @@ class LatticeEngine(EngineBase):
         left, _, right = ens_set["interfaces"]
         x, v = read_lat(system.config[0])[0]
         traj_file = os.path.join(self.exe_dir, f"{name}.{self.ext}")
+        if self.script_calls is not None:
+            self.script = list(self.script_calls.pop(0)) if self.script_calls else []
         if not hasattr(self, "rgen") and self.script is None:
             raise ValueError("Missing random generator!")
         self.calls.append(("propagate", (x, reverse, path.maxlen)))
